@@ -941,7 +941,7 @@ class SetArr(IArr):
 
     def shifted(s, c):
         c = Z(c)
-        return SetArr(s._shape[0], lambda j: s.e(j) + c, lambda v: s.mem(v - c), lambda v: s.rank(v - c), None if s.lo is None else s.lo + c, None if s.hi is None else s.hi + c, s.name + "+c")
+        return SetArr(s._shape[0], lambda j: s.e(j) + c, lambda v: s.mem(v - c), lambda v: s.rank(v - c), None, None, s.name + "+c")
 
     def __add__(s, o):
         o2 = _lift(o)
@@ -1335,7 +1335,15 @@ def _ones(shape, dtype=float, **k):
     return _const(shape, {"int": 1, "real": 1.0, "bool": True}[kind], kind)
 
 
+def _has_iarr(x, depth=0):
+    if isinstance(x, IArr):
+        return True
+    return depth < 3 and isinstance(x, (list, tuple)) and any(_has_iarr(y, depth + 1) for y in x)
+
+
 def _array(x, dtype=None, **k):
+    if not _has_iarr(x) and not isinstance(x, (SZ, SVal)):
+        return _np.asarray(x, **({"dtype": dtype} if dtype is not None else {}))  # e.g. a tuple of symbolic scalars: object array
     a = _lift(x)
     if a is None:
         raise Unsupported("E3: np.array of this object")
@@ -1587,7 +1595,7 @@ class Sym:
         CTX.reset()
         s.inputs = {}
         s.pending_canaries = {}
-        s.unknowns = 0
+        s.unknowns = s.refuted = s.covers = 0
         CTX.timeout = 20000 if getattr(vk, "tier", "quick") == "thorough" else 5000
 
     # -- inputs
@@ -1642,8 +1650,20 @@ class Sym:
             rng += [v >= zdim(lo), v < zdim(hi)]
         CTX.axioms.append(z3.ForAll(vs, z3.Implies(z3.And(*rng), Z(body(*vs)))))
 
+    def cover(s):
+        """vacuity guard: the assumption set of the (sub-)configuration must be satisfiable"""
+        if not CTX.assumptions:
+            return
+        sol = z3.Solver()
+        sol.set("timeout", 300)  # an inconsistency shows up by instantiation at once; model construction may time out
+        sol.add(*CTX.assumptions)
+        s.covers += 1
+        if sol.check() == z3.unsat:
+            s.vk.obl.append({"name": f"{s.vk.prefix}/requires-cover/{s.covers}", "status": "error", "backend": "z3", "seconds": 0, "detail": "the assumption set of this configuration is unsatisfiable (vacuous obligations)", "family": f"{s.vk.prefix}/requires-cover"})
+
     def scope(s):
         """start a fresh sub-configuration: forget the assumptions / inputs of the previous one"""
+        s.cover()
         CTX.basic, CTX.axioms = [], []
 
     def assume(s, fact):
@@ -1672,6 +1692,11 @@ class Sym:
 
     def length(s, a):
         return a.shape[0]
+
+    def all_in(s, hi, fn):
+        """spec-side bounded quantifier: fn(q) for all 0 <= q < hi"""
+        q = z3.Int(CTX.fresh("q"))
+        return z3.ForAll([q], z3.Implies(z3.And(q >= 0, q < zdim(hi)), Z(fn(q))))
 
     def rank(s, a, v):
         """position of value v in the sorted set a (meaningful where v occurs)"""
@@ -1714,11 +1739,12 @@ class Sym:
         pre = [p for p in pre if isz(p) or not p]
         pre = [p if isz(p) else z3.BoolVal(False) for p in pre]
         budget = timeout_ms or CTX.timeout
-        if s.unknowns >= 4:
-            budget = min(budget, 1500)  # changed code that leaves many queries open: do not burn the wall clock
+        if s.unknowns >= 4 or s.refuted:
+            budget = min(budget, 1000 if s.refuted else 1500)  # changed code that leaves many queries open / is already refuted: do not burn the wall clock
         s.vk.ensures_smt(clause, claim, list(CTX.assumptions) + pre + [Z(h) for h in hints], timeout_ms=budget)
         o = s.vk.obl[-1]
         s.unknowns += o["status"] == "undecided"
+        s.refuted += o["status"] == "refuted" and not clause.startswith("canary/")
         o["family"] = f"{s.vk.prefix}/{clause.split('[')[0]}"
         return o["status"]
 
@@ -1730,7 +1756,7 @@ class Sym:
         """deliberately false claim: must be refuted -- by a z3 counter-model, or (when the quantified set
         axioms leave z3 without a model: `unknown`) by a native counterexample of the paired run"""
         n = len(s.vk.obl)
-        st = s.forall("canary/" + clause, ranges, body, given, timeout_ms=5000)
+        st = s.forall("canary/" + clause, ranges, body, given, timeout_ms=2500)
         del s.vk.obl[n:]
         s.pending_canaries[clause] = st
 
@@ -1761,7 +1787,7 @@ class Nat:
         return a
 
     def reals(s, name, shape):
-        a = s.nrng.randint(-8, 9, size=shape) / 4.0
+        a = _np.array([-1.0, 0.0, 0.5, 2.0])[s.nrng.randint(0, 4, size=shape)]  # few distinct values: coincidences
         s.inputs[name] = a.tolist()
         return a
 
@@ -1771,7 +1797,7 @@ class Nat:
         return a
 
     def real(s, name):
-        v = s.rng.randint(-8, 8) / 4.0
+        v = s.rng.choice([-1.0, 0.0, 0.5, 2.0])
         s.inputs[name] = v
         return v
 
@@ -1813,6 +1839,9 @@ class Nat:
     def length(s, a):
         return len(a)
 
+    def all_in(s, hi, fn):
+        return all(fn(q) for q in range(int(hi)))
+
     def rank(s, a, v):
         return int(_np.searchsorted(_np.asarray(a), v))
 
@@ -1824,7 +1853,7 @@ class Nat:
     Not = staticmethod(lambda x: not x)
     Implies = staticmethod(lambda a, b: (not a) or bool(b))
     Iff = staticmethod(lambda a, b: bool(a) == bool(b))
-    If = staticmethod(lambda c, a, b: a if c else b)
+    If = staticmethod(lambda c, a, b: _force(a) if c else _force(b))
     eq = staticmethod(lambda a, b: a == b)
     div = staticmethod(lambda a, b: a // b)
     mod = staticmethod(lambda a, b: a % b)
@@ -1872,7 +1901,7 @@ class _Reject(Exception):
     pass
 
 
-def paired(vk, body, cfg, native_runs=3):
+def paired(vk, body, cfg, native_runs=5):
     """run `body(E, cfg)` symbolically (obligations) and natively on small random concrete instances
     (validates the index-map model against real numpy, provides native failing inputs)"""
     if not vk.sym:
@@ -1880,6 +1909,8 @@ def paired(vk, body, cfg, native_runs=3):
     import traceback
 
     _real_numpy_everywhere()
+    if getattr(vk, "tier", "quick") == "thorough":
+        native_runs = max(native_runs, 12)
     E = Sym(vk)
     aborted = None
     try:
@@ -1889,7 +1920,12 @@ def paired(vk, body, cfg, native_runs=3):
         # other exceptions: the executed code raised under the stand-in (numpy-like IndexError, ValueError ...)
         aborted = {"name": f"{vk.prefix}/run", "status": "undecided", "backend": "E3", "seconds": 0, "detail": f"symbolic run stopped: {type(e).__name__}: {e} | " + traceback.format_exc(limit=6)[-700:], "family": f"{vk.prefix}/run"}
         vk.obl.append(aborted)
+    try:
+        E.cover()
+    except Exception:
+        pass
     vk.note("E3 rebinding inventory: " + ", ".join(sorted(CTX.used)))
+    vk.note(f"E3 vacuity guard: assumption sets of {E.covers} (sub-)configurations checked for satisfiability")
     status = {o["name"]: o for o in vk.obl}
     done = seed = checks = 0
     fails = {}
